@@ -354,7 +354,7 @@ func (c *Ctx) structSort(t types.Type) *structInfo {
 		si = &structInfo{name: "S_" + key, st: st, gotype: t}
 		structCache[key] = si
 		for i := 0; i < st.NumFields(); i++ {
-			si.fields = append(si.fields, fmt.Sprintf("f_%s_%s", key, sanitize(st.Field(i).Name())))
+			si.fields = append(si.fields, fmt.Sprintf("f_%s_%d_%s", key, i, sanitize(st.Field(i).Name())))
 		}
 	}
 	if !c.dtypes[si.name] {
